@@ -597,6 +597,37 @@ def addr_dec(pl: bytes) -> bool:
     return hx.holds((pl,), fam == f and ok, (fam, text), "Address family dispatch / text form")
 
 
+def addr_dec_v6(a: int, b: int, c: int, d: int, e: int) -> bool:
+    """
+    pre: 0 <= a <= 2 and 0 <= b <= 1 and 0 <= c <= 1 and 0 <= d <= 1 and 0 <= e <= 2
+    post: _
+    """
+    hx.begin()
+    # family 2 with 16 address octets: the same 72 class representatives the symbolic form of addr_dec enumerated through its
+    # preconditions (at 7 s per path, never finishing within the quick budget) - here as five choice indices, fixed first
+    import socket
+    idx = [hx.concretize_range(a, 0, 3), hx.concretize_range(b, 0, 2), hx.concretize_range(c, 0, 2), hx.concretize_range(d, 0, 2), hx.concretize_range(e, 0, 3)]
+    inputs = (a, b, c, d, e)
+    try:
+        with hx.untraced():
+            body = bytes([(0, 0x20, 0xff)[idx[0]], (0, 1)[idx[1]]] + [(0, 0xff)[idx[2]]] * 4 + [0] * 8 + [(0, 0xff)[idx[3]], (0, 1, 0xff)[idx[4]]])
+            pl = b"\x00\x02" + body
+            fam, text = AvpAddress(257, 0, pl).value
+            back = socket.inet_pton(socket.AF_INET6, text)
+            short = None
+            try:
+                AvpAddress(257, 0, pl[:-1]).value
+                short = "no error"
+            except AvpDecodeError:
+                short = "AvpDecodeError"
+            except Exception as ex:
+                short = type(ex).__name__
+            obs = (fam, back == body, short)
+    except Exception as ex:
+        return hx.fail(inputs, "raised " + type(ex).__name__)
+    return hx.check(inputs, obs, (2, True, "AvpDecodeError"), "IPv6 address: family 2, the text denotes exactly the 16 octets; 15 octets are rejected with the decode error")
+
+
 ADDR_BYTES = [0, 1, 9, 10, 99, 100, 127, 128, 255]
 
 
@@ -1182,7 +1213,9 @@ def specs(tier, seed, carve):
     out.append(dict(id="time_dec", fn="time_dec", params={"symdt": True}, timeout=60, bound="every 4-byte payload"))
     out.append(dict(id="time_out", fn="time_out", params={"symdt": True, "opaquefmt": True}, timeout=60, bound="every second in [-2^33, 2^34] outside the documented range" + (" minus the known-finding class (NTP value still fits 32 bits)" if "c01_time_wrap" in carve else "")))
     out.append(dict(id="time_reject", fn="time_reject", params={}, timeout=30, bound="int, str, None"))
-    for fam in (1, 2, 8, -1):
+    out.append(dict(id="addr_dec_v6", fn="addr_dec_v6", params={}, timeout=120,
+                    bound="Address payloads of family 2: 72 class representatives of the 16 octets (and each with its last octet cut off), native after the choices are fixed"))
+    for fam in ((1, 8, -1) if q else (1, 2, 8, -1)):          # (the symbolic family-2 form needs the thorough budget)
         out.append(dict(id="addr_dec/fam%d" % fam, fn="addr_dec", params={"fam": fam, "maxlen": 18 if fam == 2 else (3 if fam == -1 else (6 if q else 8))}, timeout=(500 if fam == 2 else 120) if q else 900,
                         bound="well-formed Address payloads of family %s (IP content realised at inet_ntop)" % (fam if fam >= 0 else "other (all 65533)")))
     out.append(dict(id="addr_enc_v4", fn="addr_enc_v4", params={}, timeout=200, bound="9x9x2x2 IPv4 texts from boundary octets (content realised at inet_pton)"))
